@@ -59,6 +59,34 @@ def generate(rng, tier):
                            "charges": None, "groups": None, "mode": "identity"}
         spec["fraction"] = rng.choice([1.0, 1.0, 0.5])
         spec["replace_all"] = False
+        npat = len(spec["pattern"]["elements"])
+        Pp = np.array(spec["pattern"]["positions"], float).reshape(-1, 3)
+        # (only for patterns without a proper symmetry: otherwise the terms legitimately land on a symmetry-equivalent numbering)
+        if npat >= 3 and rng.random() < 0.5 and npat <= 9 and len(geom.symmetry_maps(spec["pattern"]["elements"], Pp, tol=4.0 * spec["atol"])) == 1:
+            # the pattern carries some of the terms the structure already has on every occurrence; the structure has further
+            # terms on the same atoms in other (non-reversed) orders, which are different terms and must survive
+            replcheck.add_random_terms(rng, spec, tables=False)
+            pt = {"bonds": [], "angles": [], "dihedrals": []}
+            for key, ar in (("bonds", 2), ("angles", 3), ("dihedrals", 4)):
+                if npat < ar:
+                    continue
+                for _ in range(rng.randint(1, 3)):
+                    pt[key].append(rng.sample(range(npat), ar))
+            for p_ in spec["planted"]:
+                if p_["kind"] != "copy":
+                    continue
+                for key in pt:
+                    for tup in pt[key]:
+                        st = [p_["indices"][a] for a in tup]
+                        spec[key].append(st if rng.random() < 0.5 else st[::-1])
+                        spec[key[:-1] + "_types"].append(0)
+                        if len(tup) > 2 and rng.random() < 0.6:
+                            q = list(st)
+                            rng.shuffle(q)
+                            if q != st and q != st[::-1]:
+                                spec[key].append(q)
+                                spec[key[:-1] + "_types"].append(0)
+            spec["pattern_terms"] = {k: [t if rng.random() < 0.6 else t[::-1] for t in v if rng.random() < 0.8] for k, v in pt.items()}
     elif mode == "aba":
         fams = ["single", "single", "pair", "collinear", "c2", "c3", "planar", "planar", "asymmetric", "td", "bigring", "bigring"]
         spec = worlds.gen_find_world(rng, max_atoms=40, min_copies=1, families=fams, decoys=rng.random() < 0.6, noise_div_K=True)
@@ -164,6 +192,16 @@ def execute(spec, ctx):
         structure = replcheck.build_structure(spec)
         search = worlds.build_pattern(spec["pattern"])
         replace = replcheck.build_replacement(spec["replace"])
+        if spec.get("pattern_terms") and mode == "identity":
+            from mofun import Atoms as _A
+            pt = spec["pattern_terms"]
+            kw = dict(elements=list(spec["pattern"]["elements"]), positions=np.array(spec["pattern"]["positions"], float).reshape(-1, 3))
+            for key in ("bonds", "angles", "dihedrals"):
+                if pt.get(key):
+                    kw[key] = [list(t) for t in pt[key]]
+                    kw[key[:-1] + "_types"] = [0] * len(pt[key])
+            replace = _A(**kw)
+            ctx.count("identity_with_pattern_terms")
         hints = spec["hints"]
         cell = np.array(spec["cell"], float)
         P = np.array(spec["pattern"]["positions"], float).reshape(-1, 3)
@@ -176,6 +214,14 @@ def execute(spec, ctx):
 
     if mode == "identity":
         ctx.count("identity_histories")
+        if spec.get("pattern_terms"):
+            # the pattern's terms arrive on every match: the term sets stay unchanged only if every match is a planted copy
+            ctx.rng.reset(script)
+            pre = findcheck.call_find(ctx, structure, search, atol, hints, with_quats=False)
+            copies = set(frozenset(p_["indices"]) for p_ in spec["planted"] if p_["kind"] == "copy")
+            if any(frozenset(int(i) for i in t) not in copies for t in pre):
+                ctx.count("identity_with_terms_skipped_accidental_match")
+                return
         res, k = _call_replace(ctx, structure, search, replace, atol, script, hints, fraction=spec.get("fraction", 1.0))
         if res is None:
             ctx.count("overlap_error_left_to_C07")
@@ -188,7 +234,7 @@ def execute(spec, ctx):
             raise Violation("c08:identity-changes-atoms", "replacing a pattern by itself changed atoms (position/element/charge/group); e.g. lost %s" % (diff,), site="replace")
         after_terms = _termsets(res)
         for kind in before_terms:
-            if after_terms[kind] != before_terms[kind]:
+            if set(after_terms[kind]) != set(before_terms[kind]):      # the property speaks of the SET of tuples
                 raise Violation("c08:identity-changes-%s" % kind, "replacing a pattern by an identical term-free pattern changed the set of %s tuples (%d -> %d)"
                                 % (kind, sum(before_terms[kind].values()), sum(after_terms[kind].values())), site="replace")
         if k:
